@@ -35,6 +35,9 @@ type Case struct {
 	Node   string `json:"node"`
 	Number uint64 `json:"number"`
 	Cands  []Snap `json:"cands"`
+	// stateful interleavings (stateful.go): Cands is then the snapshot table
+	Slots int  `json:"slots,omitempty"`
+	Ops   []Op `json:"ops,omitempty"`
 }
 
 const gap = config.SnapshotRoundGap
@@ -113,6 +116,10 @@ func content(ss []*common.Snapshot) string {
 }
 
 func run(c *vh.Ctx, cs Case) {
+	if len(cs.Ops) > 0 {
+		runStateful(c, cs)
+		return
+	}
 	node := h32(cs.Node)
 	round := kernel.VerifC19NewCacheRound(node, cs.Number)
 	var coqCands, classes []string
@@ -348,9 +355,16 @@ func main() {
 	for _, cs := range corpus() {
 		run(c, cs)
 	}
+	for _, cs := range stCorpus() {
+		run(c, cs)
+	}
 	n := c.Scale(3000, 100000)
 	for i := 0; i < n; i++ {
 		run(c, genSeq(c))
+	}
+	n = c.Scale(400, 15000)
+	for i := 0; i < n; i++ {
+		run(c, genStateful(c))
 	}
 	c.Finish()
 }
